@@ -340,7 +340,14 @@ def e2e_part(ck):
             starts = token_starts(d.split("\t")[0])
             for e in c.got[1]:
                 cands = [n for n in getattr(c, "expect_nodes", []) if t3._sq(n[2]) == t3._sq(e[1]) and n[3] == e[2]]
-                if len(cands) != 1 or e[0] == "0.0.0.0":
+                if len(cands) != 1:
+                    continue
+                if e[0] == "0.0.0.0":
+                    # "no location": right for patterns without source text of their own (`_`, wildcard structs); for a sub-pattern
+                    # that has tokens of its own (the model gives it a location) the entry marks nothing at all
+                    if cands[0][1] != "0.0.0.0":
+                        paired += 1
+                        why = why or "is missing: the failed sub-pattern has source text of its own (the model anchors it at %s) but the entry carries no location" % cands[0][1]
                     continue
                 paired += 1
                 L = tuple(int(x) for x in e[0].split("."))
